@@ -33,10 +33,12 @@ def main():
         w = tempfile.mkdtemp(prefix='gbmk.')
         try:
             subprocess.check_call(['rsync', '-a', '--exclude', '.git', '--exclude', '*.tmp', REPO + '/', w + '/'])
-            for (f, old, new) in s['edits']:
+            for ed in s['edits']:
+                f, old, new = ed[0], ed[1], ed[2]
+                want = ed[3] if len(ed) > 3 else 1
                 p = os.path.join(w, f)
                 src = open(p).read()
-                if src.count(old) != 1:
+                if (want == 1 and src.count(old) != 1) or (want != 1 and src.count(old) < 1):
                     print('SPEC-ERROR %s: %r occurs %d times in %s' % (s['name'], old[:50], src.count(old), f)); ok = False; raise StopIteration
                 open(p, 'w').write(src.replace(old, new))
             r = subprocess.run(['go', 'build', './...'], cwd=w, env=env, capture_output=True, text=True)
